@@ -49,7 +49,7 @@ from .._columns import (
 )
 from .._engine import Engine as BaseEngine
 from .._engine import GenericConcreteEngine
-from .._exceptions import EngineError
+from .._exceptions import ColumnError, EngineError, RelationalAlgebraError
 from .._leaf_relation import LeafRelation
 from .._marker_relation import MarkerRelation
 from .._materialization import Materialization
@@ -148,7 +148,16 @@ class Engine(GenericConcreteEngine[Callable[..., Any]]):
                 return tree, False, ("backtracking through binary operations is not implemented",)
             case Transfer(target=target) as transfer:
                 if target.engine == preferred:
-                    upstream, done, messages = operation.apply(target), True, ()
+                    try:
+                        upstream, done, messages = operation.apply(target), True, ()
+                    except ColumnError:
+                        raise
+                    except RelationalAlgebraError as err:
+                        # The preferred engine refuses the operation at this
+                        # position (e.g. it does not support it, or it would
+                        # have to drop a sort); that is a failed backtrack,
+                        # not a failure of the caller's request.
+                        return (transfer, False, (str(err),))
                 else:
                     upstream, done, messages = target.engine.backtrack_unary(operation, target, preferred)
                 if upstream is target:
